@@ -23,7 +23,9 @@ class _SubstVar(DefaultTransformVisitor):
     def _visit_var(self, e: Var, ctx: None):
         d = self.def_use.find_def_from_use(e)
         if d in self.subst:
-            return self.subst[d]
+            new = self.subst[d]
+            # a fresh node per use: analyses key their facts on node identity
+            return Var(new.name, e.loc) if isinstance(new, Var) else new
         else:
             return Var(e.name, e.loc)
 
